@@ -194,7 +194,11 @@ class GraphStub(Tracked):
     def __init__(self, name="G"):
         c = core.ctx()
         self.m = Sym(c.fresh_const(name + ".number_of_edges", INT))
-        c.assume(self.m.t >= 0)
+        self.n = Sym(c.fresh_const(name + ".number_of_nodes", INT))
+        c.assume(z3.And(self.m.t >= 0, self.n.t >= 2))
+
+    def number_of_nodes(self):
+        return self.n
 
     def number_of_edges(self):
         return self.m
